@@ -156,7 +156,8 @@ class SymExec:
             vals = [self.ev(a) for a in args]
             if p in self.inline and self.depth < 6:
                 return self.inline_call(cf, vals)
-            if self.auto and self.depth < 6 and cf.get("kind") in ("Fn", "AssocFn") and not cf.get("impl_trait"):
+            from .terms import default_overridden
+            if self.auto and self.depth < 6 and cf.get("kind") in ("Fn", "AssocFn") and not cf.get("impl_trait") and not default_overridden(self.pdb, cf):
                 # an inherent helper with a single-path body (abs_sqr, a private numerator helper, ..) is transparent
                 try:
                     r = self.inline_call(cf, vals)
